@@ -117,13 +117,27 @@ def _wchan(path):
         return ""
 
 
-def _group_members(pgid):
+def _children(pid):
     out = []
-    for d in os.listdir("/proc"):
-        if d.isdigit():
-            st, pg = _proc_stat(int(d))
-            if pg == pgid and st not in (None, "Z", "X"):
-                out.append((int(d), st))
+    try:
+        for tid in os.listdir(f"/proc/{pid}/task"):
+            with open(f"/proc/{pid}/task/{tid}/children") as f:
+                out += [int(x) for x in f.read().split()]
+    except (OSError, ValueError):
+        pass
+    return out
+
+
+def _group_members(pgid):
+    """Live processes of the daemon's process group: the daemon (group leader) and its descendants.
+    (Walks /proc/<pid>/task/*/children instead of scanning all of /proc.)"""
+    out, todo = [], [pgid]
+    while todo:
+        p = todo.pop()
+        st, pg = _proc_stat(p)
+        if st not in (None, "Z", "X"):
+            out.append((p, st))
+        todo += _children(p)
     return out
 
 
@@ -134,7 +148,7 @@ def wait_exited(pid, limit=120.0):
         st, _ = _proc_stat(pid)
         if st in (None, "Z", "X"):
             return True
-        time.sleep(0.002)
+        time.sleep(0.005)
     return False
 
 
@@ -304,12 +318,12 @@ class RealPair:
                 if pw not in ("do_wait", "anon_pipe_read", "pipe_read", "pipe_wait", "wait_for_partner"):
                     seen = 0
                     continue
-                members = _group_members(pid)
-                if [p for p, _ in members] != [pid]:
+                dw = _wchan(f"/proc/{pid}/wchan")
+                if dw not in ("anon_pipe_read", "pipe_read", "pipe_wait"):
                     seen = 0
                     continue
-                dw = _wchan(f"/proc/{pid}/wchan")
-                if members[0][1] != "S" or dw not in ("anon_pipe_read", "pipe_read", "pipe_wait"):
+                members = _group_members(pid)
+                if [p for p, _ in members] != [pid] or members[0][1] != "S":
                     seen = 0
                     continue
                 # nothing in flight towards the daemon; towards Python only matters if Python is reading
@@ -390,16 +404,16 @@ class RealPair:
             if _proc_stat(pid)[0] in (None, "Z", "X"):
                 return False  # the daemon is gone (killed from outside?)
             if (
-                [p for p, _ in _group_members(pid)] == [pid]
-                and _wchan(f"/proc/{pid}/wchan") in ("anon_pipe_read", "pipe_read", "pipe_wait")
+                _wchan(f"/proc/{pid}/wchan") in ("anon_pipe_read", "pipe_read", "pipe_wait")
                 and _fionread(wfd) == 0
+                and [p for p, _ in _group_members(pid)] == [pid]
             ):
                 ok += 1
                 if ok >= 2:
                     return True
             else:
                 ok = 0
-            time.sleep(0.002)
+            time.sleep(0.005)
         return False
 
     def _request(self, ebp, pid, name, devs):
